@@ -451,6 +451,11 @@ func (r *R) Finish() {
 			kinds = append(kinds, k)
 		}
 		sort.Strings(kinds)
+		fl := map[string][2]int64{}
+		for _, k := range kinds {
+			fl[k] = [2]int64{r.events[k], r.floors[k]}
+		}
+		r.extra["floors_observed_vs_required"] = fl
 		for _, k := range kinds {
 			if r.events[k] < r.floors[k] {
 				r.inconc = append(r.inconc, fmt.Sprintf("event %q observed %d times, floor %d", k, r.events[k], r.floors[k]))
